@@ -113,11 +113,11 @@ type Site struct {
 }
 
 type Shake struct {
-	SNI      string `json:"sni"`
-	CMin     string `json:"cmin"`
-	CMax     string `json:"cmax"`
-	Offer    bool   `json:"offer"` // offer a client certificate
-	HostHdr  string `json:"host"`  // Host header of the request after the handshake ("" = same as SNI)
+	SNI     string `json:"sni"`
+	CMin    string `json:"cmin"`
+	CMax    string `json:"cmax"`
+	Offer   bool   `json:"offer"` // offer a client certificate
+	HostHdr string `json:"host"`  // Host header of the request after the handshake ("" = same as SNI)
 }
 
 type Case struct {
